@@ -26,11 +26,14 @@ def sh(cmd, **kw):
     return subprocess.run(cmd, shell=True, capture_output=True, text=True, **kw)
 
 
+SEEDED_DIR = "seeded"
+
+
 def run_one(sid, tier, budget):
-    d = os.path.join(VERIF, "seeded", sid)
+    d = os.path.join(VERIF, SEEDED_DIR, sid)
     agent = json.load(open(os.path.join(d, "agent_meta.json"))) if os.path.exists(os.path.join(d, "agent_meta.json")) else {}
     prop = (agent.get("property") or sid[:3]).upper()[:3]
-    if not prop.startswith("C"):
+    if not (prop.startswith("C") and prop[1:].isdigit()):
         prop = "C" + sid[1:3]
     meta = {"id": sid, "property": prop, "summary": agent.get("summary"), "needs": agent.get("needs"),
             "origin": "independent sub-agent given only the property text and a scratch worktree"}
@@ -78,7 +81,7 @@ def run_one(sid, tier, budget):
                 rp = ln.split("replay=")[1].strip()
                 if os.path.exists(rp):
                     shutil.copy(rp, os.path.join(d, "replay_found_by_check.json"))
-                    meta["check"]["replay"] = f"seeded/{sid}/replay_found_by_check.json"
+                    meta["check"]["replay"] = f"{SEEDED_DIR}/{sid}/replay_found_by_check.json"
         meta["caught"] = c.returncode == 1
         if quiet:
             meta["quiet_ok"] = c.returncode == 0
@@ -97,14 +100,17 @@ def main():
     ap.add_argument("--jobs", type=int, default=2)
     ap.add_argument("--tier", default="quick")
     ap.add_argument("--budget", type=float, default=None)
+    ap.add_argument("--dir", default="seeded", help="seeded (independent sub-agents) or seeded_whitebox")
     a = ap.parse_args()
-    ids = sorted(x for x in os.listdir(os.path.join(VERIF, "seeded")) if os.path.isdir(os.path.join(VERIF, "seeded", x)))
+    global SEEDED_DIR
+    SEEDED_DIR = a.dir
+    ids = sorted(x for x in os.listdir(os.path.join(VERIF, SEEDED_DIR)) if os.path.isdir(os.path.join(VERIF, SEEDED_DIR, x)))
     if a.only:
         ids = [i for i in ids if i in a.only.split(",")]
     with ThreadPoolExecutor(max_workers=a.jobs) as ex:
         res = list(ex.map(lambda i: run_one(i, a.tier, a.budget), ids))
     for m in res:
-        p = os.path.join(VERIF, "seeded", m["id"], "meta.json")
+        p = os.path.join(VERIF, SEEDED_DIR, m["id"], "meta.json")
         old = json.load(open(p)) if os.path.exists(p) else {}
         hist = old.get("history", [])
         if "check" in m:
@@ -116,12 +122,12 @@ def main():
         print(m["id"], "confirmed" if m.get("confirmed") else "NOT-CONFIRMED", verdict,
               m.get("check", {}).get("signature", ""), m.get("check", {}).get("wall_s"))
     allm = []
-    for i in sorted(os.listdir(os.path.join(VERIF, "seeded"))):
-        p = os.path.join(VERIF, "seeded", i, "meta.json")
+    for i in sorted(os.listdir(os.path.join(VERIF, SEEDED_DIR))):
+        p = os.path.join(VERIF, SEEDED_DIR, i, "meta.json")
         if os.path.exists(p):
             allm.append(json.load(open(p)))
-    with open(os.path.join(VERIF, "seeded", "RESULTS.md"), "w") as f:
-        f.write("# Seeded changes (written by independent sub-agents): confirmation and detection\n\n")
+    with open(os.path.join(VERIF, SEEDED_DIR, "RESULTS.md"), "w") as f:
+        f.write("# Seeded changes (" + ("written by independent sub-agents" if SEEDED_DIR == "seeded" else "written by WHITE-BOX adversary agents that could read /verif and run the checks") + "): confirmation and detection\n\n")
         f.write("| id | property | confirmed (suite 114/11, demo 1/0) | latest check | signature | what it needs |\n|---|---|---|---|---|---|\n")
         for m in allm:
             verdict = ("QUIET" if m.get("quiet_ok") else "FALSE-ALARM?") if m["id"].startswith("q") else ("CAUGHT" if m.get("caught") else "MISSED")
